@@ -162,6 +162,12 @@ def map_public(pub, side, verdicts):
                     okall = all(v is not None and v[0] and v[1] for v in vs) and side["pm_factories_ok"] and side.get("pm_call_g")
                     res[nm].update({"status": "safe" if okall else "unsafe", "keys": keys, "verdicts": vs,
                                     "entry": res[nm].get("entry") or "synthetic:with-manager"})
+        if cname == "fp" and side["fp_const"]["ok"]:
+            # fp.prec / fp.dps are constant read-only properties: nothing can change them
+            for nm in res:
+                if res[nm]["status"] in ("safe", "unsafe"):
+                    res[nm]["status"] = "safe"
+                    res[nm]["note"] = "fp precision is constant"
         out[cname] = res
     return out
 
